@@ -729,7 +729,10 @@ def alias_probe(unpack, view, octets, ref):
         return "the octets are accepted as bytes and refused as bytearray"
     v0 = view(o)
     scramble(buf)
-    buf.extend(b"\x00" * 8)
+    try:
+        buf.extend(b"\x00" * 8)
+    except BufferError:
+        return "the decoded object keeps a view of the caller's bytearray (the caller can no longer resize its buffer)"
     v1 = view(o)
     if v0 != ref:
         return "decoded from a bytearray: %s, from bytes: %s" % (str(v0)[:160], str(ref)[:160])
